@@ -96,3 +96,43 @@ Proof.
   eexists. split; [vm_compute; reflexivity|].
   eapply CompFacts.compileExpr_leaf_ok with (ec := ecnone 0) (inc := 1); try reflexivity; vm_compute; try lia; try discriminate.
 Qed.
+
+(* ---- the reference half of frag_compile_correct applied (coq/CC/FragEvalFacts.v) ---- *)
+From GL Require CC.FragEvalFacts.
+
+(* hypotheses: the three programs are in the fragment and the harness fuel is above the bound *)
+Example frag_fuel_ok : (FragEvalFacts.frag_fuel prog1 <= fuel)%nat /\ (FragEvalFacts.frag_fuel prog2 <= fuel)%nat /\
+  (FragEvalFacts.frag_fuel prog3 <= fuel)%nat.
+Proof. unfold fuel. vm_compute FragEvalFacts.frag_fuel. repeat split; lia. Qed.
+
+Example prun_values : prun [] prog1 = CRet [VNum 3; VNum 2] /\ prun [] prog2 = CFault 3 /\
+  prun [] prog3 = CRet [VNum 7; VBool false].
+Proof. vm_compute. repeat split; reflexivity. Qed.
+
+(* the evaluator's outcome obtained from the theorem, not by running it *)
+Example prog1_reference : outcome_of (run_program fuel no_devs prog1) = Outcome [] (OOk [ONum 3; ONum 2]).
+Proof.
+  destruct progs_in_frag as [H1 _]. destruct frag_fuel_ok as [F1 _].
+  destruct (FragEvalFacts.frag_reference_is_prun_lemma prog1 fuel no_devs H1 F1) as [_ E]. rewrite E.
+  vm_compute. reflexivity.
+Qed.
+
+Example prog2_reference : outcome_of (run_program fuel gopher_devs prog2) = Outcome [] (OErr (OFault 2 3)).
+Proof.
+  destruct progs_in_frag as [_ [H2 _]]. destruct frag_fuel_ok as [_ [F2 _]].
+  destruct (FragEvalFacts.frag_reference_is_prun_lemma prog2 fuel gopher_devs H2 F2) as [_ E]. rewrite E.
+  vm_compute. reflexivity.
+Qed.
+
+(* a left operand that is a local (read late by the evaluator) and a shadowing redeclaration *)
+Definition prog4 : list stmt :=
+  [SLocal 1 [va] [ENum 5]; SLocal 2 [vb] [EBin OSub (EVar va) (EBin OMul (EVar va) (ENum 2))];
+   SLocal 3 [va] [EUn ONot (EVar vb)]; SAssign 4 [EVar vb] [EUn ONeg (EVar vb)];
+   SReturn 5 [EVar va; EVar vb; EParen (EBin OAdd (EVar vb) ENil)]].
+Example prog4_frag : in_frag prog4 = true /\ prun [] prog4 = CFault 5. Proof. vm_compute. split; reflexivity. Qed.
+Example prog4_reference : exists s', run_program 12 no_devs prog4 = FinErr (VFault 2 5) s' /\ trace s' = [].
+Proof.
+  destruct prog4_frag as [H P].
+  pose proof (FragEvalFacts.frag_run_lemma prog4 12 no_devs H) as L. rewrite P in L. apply L.
+  vm_compute. lia.
+Qed.
